@@ -18,11 +18,11 @@ echo "== demo with change (expect non-zero)" | tee -a $LOG
 DEMO=_out/demo.sh
 timeout 600 bash $DEMO "$WT" > /tmp/confirm-$ID.with 2>&1; RC_WITH=$?
 tail -5 /tmp/confirm-$ID.with | tee -a $LOG; echo "rc=$RC_WITH" | tee -a $LOG
-git stash push -q -- src
+git diff -- src > /tmp/confirm-$ID.applied.diff; git checkout -- src
 echo "== demo without change (expect zero)" | tee -a $LOG
 timeout 600 bash $DEMO "$WT" > /tmp/confirm-$ID.without 2>&1; RC_WITHOUT=$?
 tail -5 /tmp/confirm-$ID.without | tee -a $LOG; echo "rc=$RC_WITHOUT" | tee -a $LOG
-git stash pop -q
+git apply /tmp/confirm-$ID.applied.diff
 if [ "$T_BAD" = 0 ] && [ "$T_OK" -ge 2 ] && [ $RC_WITH -ne 0 ] && [ $RC_WITH -ne 124 ] && [ $RC_WITHOUT -eq 0 ]; then
   mkdir -p $OUT; cp _out/patch.diff _out/notes.md $OUT/ 2>/dev/null; cp _out/demo* $OUT/ 2>/dev/null; cp $LOG $OUT/confirm.log
   echo "CONFIRMED $ID ($PROP)" | tee -a $OUT/confirm.log
